@@ -1,7 +1,7 @@
 (* C04 — lemmas about the service paths: sign / export / re-import / verify, MAC, ciphertext layout. *)
 From Coq Require Import List NArith ZArith Bool Lia ZifyN ZifyNat ZifyBool.
 Import ListNotations.
-From VF Require Import C04.Model C04.Inst C04.Proofs gen.Gen_C04.
+From VF Require Import C04.Model C04.Inst C04.Proofs C04.ProofsDer gen.Gen_C04.
 Local Open Scope N_scope.
 
 (* the codec carries the value: what the encoder produces, the decoder maps back to the same value *)
@@ -23,6 +23,30 @@ Qed.
 
 Lemma codec_ok_opaque b : codec_ok EncOpaque (SBytes b).
 Proof. exists b. split; reflexivity. Qed.
+
+Lemma codec_ok_der r s k :
+  (k <= 1000)%nat -> (0 <= r < 256 ^ Z.of_nat k)%Z -> (0 <= s < 256 ^ Z.of_nat k)%Z -> codec_ok EncDer (SRS r s).
+Proof.
+  intros Hk Hr Hs. exists (der_encode r s). split; [reflexivity|]. simpl.
+  rewrite (der_roundtrip_l r s k Hk Hr Hs). reflexivity.
+Qed.
+
+(* the core signature value is in the range of the encoding: a condition on the VALUE only *)
+Definition sval_fits (e : senc) (v : sval) : Prop :=
+  match e, v with
+  | EncDer, SRS r s => (0 <= r < 256 ^ 1000)%Z /\ (0 <= s < 256 ^ 1000)%Z
+  | EncP1363 n, SRS r s => (1 <= n <= 66)%nat /\ (0 <= r < 256 ^ Z.of_nat n)%Z /\ (0 <= s < 256 ^ Z.of_nat n)%Z
+  | EncOpaque, SBytes _ => True
+  | _, _ => False
+  end.
+
+Lemma sval_fits_codec_ok e v : sval_fits e v -> codec_ok e v.
+Proof.
+  destruct e as [|n|], v as [r s|b]; simpl; try tauto.
+  - intros [Hr Hs]. apply (codec_ok_der r s 1000); [lia| |]; change (Z.of_nat 1000) with 1000%Z; assumption.
+  - intros (Hn & Hr & Hs). apply codec_ok_p1363; assumption.
+  - intros _. apply codec_ok_opaque.
+Qed.
 
 (* decoders are injective on what they accept (DER: always; P1363: among byte strings of one length) *)
 Lemma dec_sig_inj e a b v :
